@@ -123,7 +123,9 @@ class Gen:
         if self.k["zeros"] >= 0.3 and len(fi) >= 2:
             prods += ["zero", "zero", "zero"]
         if not self.hyg and fi and self.rng.random() < self.k["reuse"]:
-            prods += ["shadow", "shadow", "shadow"]
+            prods += ["shadow", "shadow", "shadow", "capture", "capture", "capture"]
+        if self.k["variables"] > 0:
+            prods += ["vartr"]
         for _ in range(6):
             kind = rng.choice(prods)
             try:
@@ -258,6 +260,53 @@ class Gen:
         if kind == "prod":
             return Product(inner, rest)
         return Sum(Product(inner, rest), self.scalar(fi, max(depth - 1, 0)))
+
+    def s_capture(self, fi, depth):
+        """a ComponentTensor accessed with the very index OBJECT that is bound again inside its body:
+        by an inner IndexSum, or by an inner un-indexed ComponentTensor kept alive under a
+        Conditional / ListTensor (substituting the outer binder must not be captured)"""
+        rng = self.rng
+        a, d = rng.choice(list(fi.items()))
+        i = self.fresh()
+        rest = self.scalar(fi, max(depth - 2, 0))
+        if rng.random() < 0.5:
+            body = IndexSum(self.scalar({i: d, a: d}, max(depth - 2, 0)), MultiIndex((a,)))
+            if rng.random() < 0.4:
+                body = Product(body, self.scalar({i: d}, 0))
+            e = Indexed(ComponentTensor(body, MultiIndex((i,))), MultiIndex((a,)))
+        else:
+            k = self.fresh()
+            row = ComponentTensor(self.scalar({i: d, a: d}, max(depth - 2, 0)), MultiIndex((a,)))
+            row2 = ComponentTensor(self.scalar({i: d, a: d}, 0), MultiIndex((a,)))
+            if rng.random() < 0.6:
+                W = Conditional(self.condition(1), row, row2)
+                wk = Indexed(W, MultiIndex((k,)))
+            else:
+                W = ListTensor(row, row2)
+                wk = Indexed(W, MultiIndex((FixedIndex(rng.randrange(2)), k)))
+            outer = ComponentTensor(wk, MultiIndex((i, k)))
+            e = Indexed(outer, MultiIndex((a, FixedIndex(rng.randrange(d)))))
+        return Product(e, rest)
+
+    def s_vartr(self, fi, depth):
+        """one tensor valued Variable reached at permuted components under the same index values"""
+        rng = self.rng
+        d = self.dim()
+        v = self.t_var((d, d), depth)
+        avail = [i for i, dd in fi.items() if dd == d]
+
+        def entry():
+            if avail and rng.random() < 0.6:
+                return rng.choice(avail)
+            return FixedIndex(rng.randrange(d))
+        p, q = entry(), entry()
+        a = Indexed(v, MultiIndex((p, q)))
+        b = Indexed(v, MultiIndex((q, p)))
+        e = Sum(a, Product(IntValue(-2), b)) if rng.random() < 0.5 else Product(a, Sum(b, IntValue(1)))
+        missing = {i: dd for i, dd in fi.items() if i.count() not in e.ufl_free_indices}
+        if missing or rng.random() < 0.3:
+            e = Product(e, self.scalar(fi, max(depth - 2, 0)))
+        return e
 
     def s_ctpair(self, fi, depth):
         """one scalar body bound by two ComponentTensors with different index tuples (permuted
